@@ -3,7 +3,7 @@
 (2) the demonstration fails with the change, (3) passes without it.  usage: seed_confirm.py ID paste|example [file-to-paste-into filter]"""
 import os, re, subprocess, sys, shutil, json
 pid, kind = sys.argv[1], sys.argv[2]
-wt, out = "/tmp/seeds/wt_%s" % pid, "/tmp/seeds/out_%s" % pid
+wt, out = os.environ.get("SEED_WT", "/tmp/seeds/wt_%s" % pid), os.environ.get("SEED_OUT", "/tmp/seeds/out_%s" % pid)
 env = dict(os.environ, CARGO_NET_OFFLINE="true", CARGO_TARGET_DIR=wt + "/target")
 def sh(cmd, **kw):
     p = subprocess.run(cmd, shell=True, cwd=wt, env=env, capture_output=True, text=True, **kw)
